@@ -102,7 +102,7 @@ L2_NOTE = ("Real anndb server processes (cmd/anndb's main with the verif hooks w
            "crash = SIGKILL; zero-group snapshots are requested through the verif hook instead of waiting for 5000 entries; views are read after a bounded quiescence wait.")
 CHECKS.update({
     "C14": dict(
-        text="Catalogue.tla models the catalogue state machine over the zero group's log with snapshots, restores and restarts, and the switches RestoreMode / WireFirst (TLC: every node equals the replay of the log it applied - holds in the repaired positions, counterexamples for add-only restore, for a restore that keeps the replica sets of known datasets, and for starting the apply loop before the consumer is wired). Twelve scenarios run on three to five real server processes - create / delete through different nodes, kill -9 and restart of a follower and of the bootstrap node, with the consumer wired late (gate), after a zero-group snapshot (with descriptor reads before it), after a node left, a follower that was down while datasets were created and deleted and the logs compacted and that catches up through a snapshot installed into the catalogue it already holds (also a snapshot of an empty catalogue), the bootstrap node being removed through another member and stopped (the rest carries on: creation, restart), a node leaving while a member is down (with three and with four nodes, so that the replica-set changes are committed behind the absent member and reach it only through the snapshot), a lost join hand-shake - and ClusterViewTrace compares every node's List() with what the acknowledged operations imply (ids, dimension, partitions, replica sets identical on all nodes, also after restart).",
+        text="Catalogue.tla models the catalogue state machine over the zero group's log with snapshots, restores and restarts, and the switches RestoreMode / WireFirst (TLC: every node equals the replay of the log it applied - holds in the repaired positions, counterexamples for add-only restore, for a restore that keeps the replica sets of known datasets, and for starting the apply loop before the consumer is wired). Thirteen scenarios run on three to five real server processes - create / delete through different nodes, kill -9 and restart of a follower and of the bootstrap node, with the consumer wired late (gate), after a zero-group snapshot (with descriptor reads before it), after a node left, a follower that was down while datasets were created and deleted and the logs compacted and that catches up through a snapshot installed into the catalogue it already holds (also a snapshot of an empty catalogue), the bootstrap node being removed through another member and stopped (the rest carries on: creation, restart), a node leaving while a member is down (with three and with four nodes, so that the replica-set changes are committed behind the absent member and reach it only through the snapshot), a lost join hand-shake - and ClusterViewTrace compares every node's List() with what the acknowledged operations imply (ids, dimension, partitions, replica sets identical on all nodes, also after restart).",
         note=L2_NOTE + "",
         technique="TLA+ model checking (TLC) + scenarios on real server processes + TLC trace validation of every node's catalogue view", ref="5/C14"),
     "C20": dict(
@@ -112,7 +112,7 @@ CHECKS.update({
 
 CHECKS.update({
     "C18": dict(
-        text="ControlPlane.tla models the zero group's apply goroutine against the allocator loop (locks, the capacity-10 notification channel, the unbuffered updates channel, the loop's blocking proposal) and TLC's deadlock check decides it per entry sequence and switch position: all entry sequences are deadlock-free with the worker queue of the repaired allocator (switch InlineNodeChanges = FALSE); the shipped positions - send under lock, inline handling of a node change with a dataset creation behind it, inline handling with more membership changes behind it than the notification channel holds - each deadlock. The real cluster.Conn + Allocator + DatasetManager run over a scripted zero group for every entry sequence up to length 3 (thorough: 4) over {join, leave, create R=1, create R=2, delete}, queued one by one or as a restart burst, plus TLC's deadlock trace, membership histories of 18 (thorough: 60) changes with catalogue changes in between, and replica-set changes proposed by other nodes for partitions this node does or does not host; a watchdog decides whether the log drained and the node still applies a further entry, and a stall's signature is the blocked frames of the apply goroutine and the allocator's goroutines; a panic on one of those goroutines is reported the same way (crash@frames). Real servers are killed and restarted with existing datasets, with and without a catalogue snapshot.",
+        text="ControlPlane.tla models the zero group's apply goroutine against the allocator loop (locks, the capacity-10 notification channel, the unbuffered updates channel, the loop's blocking proposal) and TLC's deadlock check decides it per entry sequence and switch position: all entry sequences are deadlock-free with the worker queue of the repaired allocator (switch InlineNodeChanges = FALSE); the shipped positions - send under lock, inline handling of a node change with a dataset creation behind it, inline handling with more membership changes behind it than the notification channel holds - each deadlock. The real cluster.Conn + Allocator + DatasetManager run over a scripted zero group for every entry sequence up to length 3 (thorough: 4) over {join, leave, create R=1, create R=2, delete}, queued one by one or as a restart burst, plus TLC's deadlock trace, membership histories of 18 (thorough: 60) changes with catalogue changes in between, and replica-set changes proposed by other nodes for partitions this node does or does not host, and removals of the peer of a partition group that has no leader followed by deletions and creations; a watchdog decides whether the log drained and the node still applies a further entry, and a stall's signature is the blocked frames of the apply goroutine and the allocator's goroutines; a panic on one of those goroutines is reported the same way (crash@frames). Real servers are killed and restarted with existing datasets, with and without a catalogue snapshot; in the scenario dead-leave a member dies and is then removed (partitions it shared with one other node are left without a leader), datasets are deleted and created, and every remaining node must keep answering List and applying the changes (Wedged@dead-leave).",
         note="The zero group is scripted (one apply goroutine, entries in order). A stall = log not drained 6 s after the last entry. Two open known findings (one wait-for cycle, both lock orders) are suppressed by their exact signature; any other stall is a violation.",
         technique="TLA+ deadlock checking (TLC) + entry sequences on the real control plane under a watchdog + TLC trace validation", ref="5/C18"),
 })
